@@ -30,7 +30,7 @@ PROPS = {
         streams=[S("hist", "check_hist_all", 500, 16000)],
         witness=[],
         nontrivial_rule="at least two (vertex, handle) pairs with a non-empty successor list at the end of the history",
-        explanation="Theorem C19 (proofs/C19Refine*.v): every history of New/Add/AddOverwrite/Remove/AddEdge/RemoveEdge/Vertex/Copy/Reverse over any number of handles refines a plain adjacency model per allocation class; never panics; in/out maps stay mirror images; copies are independent, reversed views share. Correspondence: random histories (<=40 ops, <=5 handles, <=6 keys) on the real Graph, final observation of every handle through Vertices/OutEdges/InEdges and the raw adjacency dump.",
+        explanation="Theorem C19 (proofs/C19Refine*.v): every history of New/Add/AddOverwrite/Remove/AddEdge/RemoveEdge/Vertex/Copy/Reverse over any number of handles refines a plain adjacency model per allocation class; never panics; in/out maps stay mirror images; copies are independent, reversed views share. Theorems C19_reverse_involutive / C19_reverse_reach / C19_reverse_min_dist (proofs/ReverseLaws.v): on every graph satisfying that invariant the reversed view is an involution and turns reachability and shortest distances around. Correspondence: random histories (<=40 ops, <=5 handles, <=6 keys) on the real Graph, final observation of every handle through Vertices/OutEdges/InEdges and the raw adjacency dump.",
         assumptions=["vertex identity = hash code (the harness uses distinct integer hash codes)"],
     ),
     "C20": dict(
@@ -181,7 +181,7 @@ PROPS.update({
                  S("redefstrict", "run_prop2 CPanic 8", 200, 4000, variant="nat")],
         witness=[W("TestD7", "D7"), W("TestD8", "D8")],
         nontrivial_rule="history with at least one execution",
-        explanation="Theorems C08 / C08_unbounded (proofs/C08Redefine*.v): Redefine fails with the output-filter error exactly when an output is rejected; when it succeeds every input of the redefined function passes the input filter (bound: fewer than (2^63-1)/20 vertices) and none is keyed like a supplied value. Theorem C08_succeeds (proofs/C08Succeeds*.v): on the domain, for every tape, Redefine returns a function whenever no output is rejected and every target parameter passes the input filter (only other outcome: the error of a failing converter generator). Theorem C08_callable (proofs/C08Callable*.v, 10 files): when Redefine succeeds with inputs ins, the original Call with the Redefine options plus one value per declared input -- the body of the redefined function -- never fails for lack of an argument, for every tape, behaviour and choice of values (result or converter error only). C08_nonvacuous: a scenario recorded from the Go library meets every premise. Only the hand-over from the synthesised struct function to that inner Call is left to the correspondence (callredef operations). Correspondence: Redefine's declared inputs as a set, then the call of the redefined function (outer resolution of the synthesised struct function and inner original Call) against the model, on the property's domain (stream redefstrict) and beyond (stream redefine: subtypes, interfaces, multi-input converters, generated converters).",
+        explanation="Theorems C08 / C08_unbounded (proofs/C08Redefine*.v): Redefine fails with the output-filter error exactly when an output is rejected; when it succeeds every input of the redefined function passes the input filter (bound: fewer than (2^63-1)/20 vertices) and none is keyed like a supplied value. Theorem C08_succeeds (proofs/C08Succeeds*.v): on the domain, for every tape, Redefine returns a function whenever no output is rejected and every target parameter passes the input filter (only other outcome: the error of a failing converter generator). Theorem C08_callable (proofs/C08Callable*.v, 10 files): when Redefine succeeds with inputs ins, the original Call with the Redefine options plus one value per declared input -- the body of the redefined function -- never fails for lack of an argument, for every tape, behaviour and choice of values (result or converter error only). Theorems C08_filter_or / C08_filter_and (proofs/FilterLaws.v): what 'permitted' means for FilterOr / FilterAnd lists of any length and nesting. C08_nonvacuous: a scenario recorded from the Go library meets every premise. Only the hand-over from the synthesised struct function to that inner Call is left to the correspondence (callredef operations). Correspondence: Redefine's declared inputs as a set, then the call of the redefined function (outer resolution of the synthesised struct function and inner original Call) against the model, on the property's domain (stream redefstrict) and beyond (stream redefine: subtypes, interfaces, multi-input converters, generated converters).",
         assumptions=["the synthesised outer function of Redefine (reflect.StructOf wrapper) is exercised by the correspondence, its inner Call is what C08_callable covers"]),
 })
 
